@@ -41,6 +41,7 @@ import (
 	"seehuhn.de/go/postscript"
 
 	"verif/mc"
+	"verif/model/eexecref"
 	"verif/model/pstoken"
 )
 
@@ -1068,7 +1069,7 @@ func boundaryFamily(budget time.Duration) mc.Family {
 	pads := []string{" ", "\n", "% pad\n"} // what the padding is made of; it always ends with a line end
 	n := len(boundarySnippets) * len(offs) * len(pads)
 	return mc.Family{Name: "buffer-boundaries", Items: n, Budget: budget,
-		Rule: fmt.Sprintf("%d snippets (DSC comments with `%%%%+` continuations in LF/CRLF/CR form, strings with line continuations, escapes and CR LF pairs, hex and ASCII85 strings, comments, numbers in every notation, names and delimiters without white space) x placed behind p bytes of padding (blanks / line feeds / comment lines, ending in a line end) for every p in %d..%d, %d..%d, %d..%d x 3 readers (all at once, last bytes together with io.EOF, one byte per call): objects, DSC comments and error must equal those of the snippet at offset 0; non-trivial = all", len(boundarySnippets), offs[0], offs[17], offs[18], offs[35], offs[36], offs[len(offs)-1], len(offs)),
+		Rule: fmt.Sprintf("%d snippets (DSC comments with `%%%%+` continuations in LF/CRLF/CR form, strings with line continuations, escapes and CR LF pairs, hex and ASCII85 strings, comments, numbers in every notation, names and delimiters without white space) x placed behind p bytes of padding (blanks / line feeds / comment lines, ending in a line end) for every p in %d..%d, %d..%d, %d..%d x 3 readers (all at once, last bytes together with io.EOF, one byte per call): objects, DSC comments and error must equal those of the snippet at offset 0; non-trivial = all", len(boundarySnippets), offs[0], offs[17], offs[18], offs[35], offs[36], offs[len(offs)-1]),
 		Body: func(c *mc.Ctx, item int) mc.Verdict {
 			sn := boundarySnippets[item%len(boundarySnippets)]
 			p := offs[(item/len(boundarySnippets))%len(offs)]
@@ -1097,6 +1098,84 @@ func boundaryFamily(budget time.Duration) mc.Family {
 			return fmt.Sprintf("%q at offset %d", boundarySnippets[item%len(boundarySnippets)], offs[(item/len(boundarySnippets))%len(offs)])
 		},
 		CrashKey: func(int) string { return "C04:crash:buffer-boundaries" },
+	}
+}
+
+// ---------------------------------------------------------------------------
+// DSC comments: mixed line ends, and around an eexec section
+
+// mixedLinesFamily: three lines, each a number, a plain comment, a DSC comment
+// or empty, each ended by LF, CR or CR LF independently, then a final DSC line:
+// every DSC line stands at the start of a line and must be collected, in order.
+func mixedLinesFamily(budget time.Duration) mc.Family {
+	contents := []string{"1", "% plain", "%%K: v", "", "2 %%NotDSC: mid-line"}
+	eols := []string{"\n", "\r", "\r\n"}
+	nc, ne := len(contents), len(eols)
+	n := nc * nc * nc * ne * ne * ne
+	eexecForms := 2
+	return mc.Family{Name: "dsc-mixed-line-ends", Items: n + eexecForms, Budget: budget,
+		Rule: fmt.Sprintf("item = three lines, each one of %q, each ended by LF, CR or CR LF independently (%d texts), followed by `%%%%Last: z`; the DSC comments collected must be exactly the lines starting with %%%%, in order, and the numbers must be on the stack; plus %d programs with DSC comments before, inside and after an eexec section (hex, binary): each collected once, in order; non-trivial = all", contents, n, eexecForms),
+		Body: func(c *mc.Ctx, item int) mc.Verdict {
+			var text string
+			var want []pstoken.DSC
+			wantStack := 0
+			if item >= n {
+				binary := item-n == 1
+				plain := []byte("/x 1 def\n%%Inside: i\nmark currentfile closefile\n")
+				text = "%!PS\n%%Title: T\n%%Creator: C\ncurrentfile eexec\n"
+				enc := eexecref.New().Encrypt(nil, append([]byte{0, 0, 0, 0}, plain...))
+				if binary {
+					text += string(enc) + "\n"
+				} else {
+					text += string(eexecref.Armour(enc, 0)) + "\n"
+				}
+				text += strings.Repeat("0", 64) + "\ncleartomark\n%%Trailer: t\n%%EOF\n"
+				want = []pstoken.DSC{{Key: "Title", Value: "T"}, {Key: "Creator", Value: "C"}, {Key: "Inside", Value: "i"}, {Key: "Trailer", Value: "t"}, {Key: "EOF", Value: ""}}
+			} else {
+				var sb strings.Builder
+				ci, ei := item%(nc*nc*nc), item/(nc*nc*nc)
+				for l := 0; l < 3; l++ {
+					ct := contents[ci%nc]
+					ci /= nc
+					sb.WriteString(ct)
+					sb.WriteString(eols[ei%ne])
+					ei /= ne
+					switch {
+					case strings.HasPrefix(ct, "%%"):
+						want = append(want, pstoken.DSC{Key: "K", Value: "v"})
+					case ct == "1" || strings.HasPrefix(ct, "2"):
+						wantStack++
+					}
+				}
+				sb.WriteString("%%Last: z\n")
+				want = append(want, pstoken.DSC{Key: "Last", Value: "z"})
+				text = sb.String()
+			}
+			intp := postscript.NewInterpreter()
+			err := intp.ExecuteString(text)
+			c.Step()
+			fail := func(class, detail string) mc.Verdict {
+				v := mc.Fail("C04:dsc-lines:"+class, fmt.Sprintf("%s | program %q", detail, text))
+				v.Render = fmt.Sprintf("%q", text)
+				return v
+			}
+			if err != nil {
+				return fail("execute-error", "Execute returned "+err.Error())
+			}
+			if item < n && len(intp.Stack) != wantStack {
+				return fail("stack", fmt.Sprintf("%d objects on the stack, expected %d", len(intp.Stack), wantStack))
+			}
+			if len(intp.DSC) != len(want) {
+				return fail("wrong-number-of-comments", fmt.Sprintf("expected %v, got %v", want, intp.DSC))
+			}
+			for i, w := range want {
+				if intp.DSC[i].Key != w.Key || intp.DSC[i].Value != w.Value {
+					return fail("wrong-comment", fmt.Sprintf("comment %d: expected %v, got %v (all: %v)", i, w, intp.DSC[i], intp.DSC))
+				}
+			}
+			return mc.Pass("collected", true)
+		},
+		CrashKey: func(int) string { return "C04:crash:dsc-lines" },
 	}
 }
 
@@ -1271,6 +1350,7 @@ func main() {
 				Rule: "item = (position of 6: first line, after a code line, after a plain comment, after a blank line, between the tokens of a procedure, in a second Execute) x key of 2 x value of 4 (or no colon, or empty) x colon/blank form of 4; choices: line end LF/CR/CRLF of the comment line (thorough: independently of the preceding line), none / one `%%+` continuation line (3 texts x 3 blank forms x 3 line ends) / two continuation lines (2 blank forms x 3 x 3 line ends), an optional second comment (2 kinds), following code / plain comment / end of file with or without final line end; observed in Interpreter.DSC in order; non-trivial = all"})
 
 			fams = append(fams, boundaryFamily(budget))
+			fams = append(fams, mixedLinesFamily(budget))
 
 			n1, b1 := psStringBody(func() []byte {
 				a := make([]byte, 256)
